@@ -33,6 +33,28 @@ def enum_cases(d, max_bits=10, nfields=4, nblocks=2, p_list=30):
     for b in range(d.randint(1, nblocks)):
         blocks.append({"name": "c%d" % b, "stmts": [g.any_stmt(2) for _ in range(d.randint(1, 3))]})
     inline = [g.any_stmt(1) for _ in range(d.randint(1, 2))] if d.chance(35) else None
+    if d.chance(25):
+        # soft statements among the hard ones (top level and inside if / else / implies bodies): they never change what the
+        # hard constraints allow
+        bodies = []
+
+        def collect(stmts):
+            bodies.append(stmts)
+            for s_ in stmts:
+                if s_[0] == "if":
+                    for _, body in s_[1]:
+                        collect(body)
+                    if s_[2] is not None:
+                        collect(s_[2])
+                elif s_[0] == "implies":
+                    collect(s_[2])
+        for b in blocks:
+            collect(b["stmts"])
+        if inline:
+            collect(inline)
+        for _ in range(d.randint(1, 2)):
+            body = bodies[d.randint(0, len(bodies) - 1)] if d.chance(30) else bodies[-1 - d.randint(0, len(bodies) - 1)]
+            body.insert(d.randint(0, len(body)), ["soft", g.cmp(1)])
     calls = []
     for _ in range(d.randint(1, 3)):
         k = d.choice(KINDS)
